@@ -113,3 +113,124 @@ func TestDoubleClosePanic(t *testing.T) {
 		t.Fatal("double close not detected")
 	}
 }
+
+// race detector: unsynchronised conflicting accesses are reported, synchronised ones are not
+
+type raceBox struct{ v int }
+
+func raceScenario(body func(b *raceBox, wg *WGState)) Scenario {
+	return func() ([]*EnvEvent, func(), func(*Result) (string, []string)) {
+		b := &raceBox{}
+		var wg WGState
+		main := func() { body(b, &wg) }
+		return nil, main, func(r *Result) (string, []string) { return fmt.Sprintf("races=%d", len(r.Races)), r.Races }
+	}
+}
+
+func racesFound(sc Scenario) (int, int) {
+	withRace, execs := 0, 0
+	Explore(ExploreOpts{PreemptionBound: 2, MaxSteps: 1000}, sc, func(x *Execution) {
+		execs++
+		if len(x.Res.Races) > 0 {
+			withRace++
+		}
+	})
+	return withRace, execs
+}
+
+func TestRaceUnsynchronised(t *testing.T) {
+	sc := raceScenario(func(b *raceBox, wg *WGState) {
+		wg.Add(2)
+		Go("w", func() { *W(&b.v) = 1; wg.Done() })
+		Go("r", func() { _ = *R(&b.v); wg.Done() })
+		wg.Wait()
+	})
+	n, execs := racesFound(sc)
+	if n != execs || execs == 0 {
+		t.Fatalf("write/read without synchronisation: race reported in %d of %d executions, want all", n, execs)
+	}
+}
+
+func TestRaceMutex(t *testing.T) {
+	sc := raceScenario(func(b *raceBox, wg *WGState) {
+		var mu MutexState
+		wg.Add(2)
+		for i := 0; i < 2; i++ {
+			Go("w", func() { mu.Lock(); *W(&b.v) = *R(&b.v) + 1; mu.Unlock(); wg.Done() })
+		}
+		wg.Wait()
+		_ = *R(&b.v)
+	})
+	if n, execs := racesFound(sc); n != 0 || execs < 2 {
+		t.Fatalf("mutex protected accesses: race reported in %d of %d executions", n, execs)
+	}
+}
+
+func TestRaceRWMutexReadersAndWriter(t *testing.T) {
+	// two readers under RLock do not race; a writer under RLock does
+	ok := raceScenario(func(b *raceBox, wg *WGState) {
+		var mu RWState
+		wg.Add(3)
+		Go("w", func() { mu.Lock(); *W(&b.v) = 1; mu.Unlock(); wg.Done() })
+		for i := 0; i < 2; i++ {
+			Go("r", func() { mu.RLock(); _ = *R(&b.v); mu.RUnlock(); wg.Done() })
+		}
+		wg.Wait()
+	})
+	if n, execs := racesFound(ok); n != 0 || execs < 2 {
+		t.Fatalf("rwmutex protected accesses: race reported in %d of %d executions", n, execs)
+	}
+	bad := raceScenario(func(b *raceBox, wg *WGState) {
+		var mu RWState
+		wg.Add(2)
+		for i := 0; i < 2; i++ {
+			Go("w", func() { mu.RLock(); *W(&b.v) = 1; mu.RUnlock(); wg.Done() })
+		}
+		wg.Wait()
+	})
+	if n, execs := racesFound(bad); n != execs {
+		t.Fatalf("writes under RLock: race reported in %d of %d executions, want all", n, execs)
+	}
+}
+
+func TestRaceChannelAndGoOrdering(t *testing.T) {
+	sc := raceScenario(func(b *raceBox, wg *WGState) {
+		*W(&b.v) = 1 // before go: ordered
+		ch := MakeChan[int]()
+		Go("child", func() { *W(&b.v) = *R(&b.v) + 1; Send(ch, 1) })
+		Recv(ch)
+		_ = *R(&b.v) // after the receive: ordered
+		ch2 := MakeChan[int](1)
+		Go("child2", func() { *W(&b.v) = 5; Close(ch2) })
+		Recv2(ch2)
+		*W(&b.v) = 6
+	})
+	if n, execs := racesFound(sc); n != 0 || execs == 0 {
+		t.Fatalf("go / channel ordered accesses: race reported in %d of %d executions", n, execs)
+	}
+}
+
+func TestRaceMapAndWaitGroup(t *testing.T) {
+	sc := func() ([]*EnvEvent, func(), func(*Result) (string, []string)) {
+		m := map[string]int{}
+		main := func() {
+			var wg WGState
+			wg.Add(2)
+			Go("a", func() { MapW(m)["a"] = 1; wg.Done() })
+			Go("b", func() { _ = MapR(m)["a"]; wg.Done() })
+			wg.Wait()
+			_ = len(MapR(m)) // ordered by Wait
+		}
+		return nil, main, func(r *Result) (string, []string) { return "", r.Races }
+	}
+	n, execs := racesFound(sc)
+	if n != execs || execs == 0 {
+		t.Fatalf("concurrent map write/read: race reported in %d of %d executions, want all", n, execs)
+	}
+	// exactly one race pair (the Wait orders the final len)
+	Explore(ExploreOpts{PreemptionBound: 0, MaxSteps: 1000}, sc, func(x *Execution) {
+		if len(x.Res.Races) != 1 {
+			t.Fatalf("want exactly one race, got %v", x.Res.Races)
+		}
+	})
+}
